@@ -363,3 +363,123 @@ package middleware
 //@ ensures [C01:found] calls(LR) == 1 && ret(LR,0,1) ==> result0 == ret(LR,0,0) && result1 != nil
 //@ ensures [C01:notfound] calls(LR) == 1 && !ret(LR,0,1) ==> result0 == nil && result1 == nil
 //@ ensures [C09:samereq] result1 != nil ==> result1.URL == old(request.URL) && result1.Header == old(request.Header) && result1.Body == old(request.Body) && result1.Method == old(request.Method)
+
+// ---------------------------------------------------------------- security: OR of ANDs (C02)
+
+//@ spec raReg(ra, i) := in(ra.Schemes[i], ra.Authenticator)
+
+// One alternative (AND): every scheme of the alternative is consulted in order until
+// one does not apply or rejects; admitted only if all of them applied without error.
+//@ func (*RouteAuthenticator).Authenticate
+//@ watch A = invoke (runtime.Authenticator).Authenticate tag rangeindex+1
+//@ requires ra != nil && route != nil
+//@ requires forall k string :: in(k, ra.Authenticator) ==> ra.Authenticator[k] != nil
+//@ stable ra.Schemes[*], ra.Authenticator[*], ra.Scopes[*]
+//@ ensures [C02:anon] ra.allowAnonymous ==> result0 && result1 == nil && result2 == nil && route.Authenticator == ra && calls(A) == 0
+//@ ensures [C02:calls] forall i int :: called(A,i) ==> 0 <= i && i < len(ra.Schemes) && raReg(ra, i) && recv(A,i) == ra.Authenticator[ra.Schemes[i]]
+//@ ensures [C02:args] forall i int :: called(A,i) ==> unboxptr(arg(A,i,0), "*security.ScopedAuthRequest").Request == req && unboxptr(arg(A,i,0), "*security.ScopedAuthRequest").RequiredScopes == ra.Scopes[ra.Schemes[i]]
+//@ ensures [C02:prefix] forall i int, j int :: called(A,j) && 0 <= i && i < j && raReg(ra, i) ==> called(A,i) && ret(A,i,0) && ret(A,i,2) == nil
+//@ ensures [C02:all] !ra.allowAnonymous && result0 && result2 == nil ==> forall i int :: 0 <= i && i < len(ra.Schemes) && raReg(ra, i) ==> called(A,i) && ret(A,i,0) && ret(A,i,2) == nil
+//@ ensures [C02:registered] !ra.allowAnonymous && result0 && result2 == nil ==> forall i int :: 0 <= i && i < len(ra.Schemes) ==> raReg(ra, i)
+//@ ensures [C02:principal] !ra.allowAnonymous && result0 && result2 == nil ==> route.Authenticator == ra && (result1 == nil || exists i int :: called(A,i) && result1 == ret(A,i,1))
+//@ ensures [C02:notapplicable] !ra.allowAnonymous && !result0 ==> result1 == nil && result2 == nil && route.Authenticator == old(route.Authenticator)
+//@ ensures [C02:rejected] !ra.allowAnonymous && result0 && result2 != nil ==> result1 == nil && route.Authenticator == ra && exists i int @try(rangeindex+1) :: called(A,i) && ret(A,i,0) && result2 == ret(A,i,2)
+//@ assigns route.Authenticator, \opaque
+//@ loop 0 invariant forall i int :: called(A,i) ==> 0 <= i && i <= rangeindex && raReg(ra, i) && recv(A,i) == ra.Authenticator[ra.Schemes[i]] && ret(A,i,0) && ret(A,i,2) == nil
+//@ loop 0 invariant forall i int :: called(A,i) ==> allocated(unboxptr(arg(A,i,0), "*security.ScopedAuthRequest"))
+//@ loop 0 invariant forall i int :: called(A,i) ==> unboxptr(arg(A,i,0), "*security.ScopedAuthRequest").Request == req
+//@ loop 0 invariant forall i int :: called(A,i) ==> unboxptr(arg(A,i,0), "*security.ScopedAuthRequest").RequiredScopes == ra.Scopes[ra.Schemes[i]]
+//@ loop 0 invariant forall i int :: 0 <= i && i <= rangeindex ==> raReg(ra, i) && called(A,i)
+//@ loop 0 invariant lastResult == nil || exists i int :: called(A,i) && lastResult == ret(A,i,1)
+//@ loop 0 invariant route.Authenticator == old(route.Authenticator) && !ra.allowAnonymous
+
+//@ func (*RouteAuthenticator).AllowsAnonymous
+//@ requires ra != nil
+//@ ensures result == ra.allowAnonymous
+//@ assigns \nothing
+
+//@ spec rasOK(i) := ret(R,i,0) && ret(R,i,2) == nil && ret(R,i,1) != nil
+
+// The alternatives (OR): the first non-anonymous alternative that is satisfied with a
+// non-nil principal wins; the anonymous alternative admits only if no alternative
+// returned an error; otherwise the last error (or "not applicable").
+//@ func (RouteAuthenticators).Authenticate
+//@ watch R = call (*RouteAuthenticator).Authenticate tag rangeindex+1
+//@ requires route != nil
+//@ requires forall i int, k string :: 0 <= i && i < len(ras) && in(k, ras[i].Authenticator) ==> ras[i].Authenticator[k] != nil
+//@ ensures [C02:consulted] forall i int :: called(R,i) ==> 0 <= i && i < len(ras) && !ras[i].allowAnonymous && arg(R,i,1) == req && arg(R,i,2) == route
+//@ ensures [C02:satisfied] result0 && result2 == nil && result1 != nil ==> exists m int @try(rangeindex+1) :: called(R,m) && rasOK(m) && result1 == ret(R,m,1) && (forall i int :: 0 <= i && i < m && !ras[i].allowAnonymous ==> called(R,i) && !rasOK(i))
+//@ ensures [C02:anonymous] result0 && result2 == nil && result1 == nil ==> (exists i int @try(anonIdx) :: 0 <= i && i < len(ras) && ras[i].allowAnonymous) && (forall i int :: called(R,i) ==> ret(R,i,2) == nil && !rasOK(i)) && route.Authenticator != nil && route.Authenticator.allowAnonymous
+//@ ensures [C02:rejected] result2 != nil ==> result0 && result1 == nil && exists i int @try(errIdx) :: called(R,i) && result2 == ret(R,i,2) && (forall j int :: called(R,j) && j > i ==> ret(R,j,2) == nil)
+//@ ensures [C02:notapplicable] !result0 ==> result1 == nil && result2 == nil && (forall i int :: 0 <= i && i < len(ras) ==> !ras[i].allowAnonymous && called(R,i) && ret(R,i,2) == nil && !rasOK(i))
+//@ ensures [C02:all] !(result0 && result2 == nil && result1 != nil) ==> forall i int :: 0 <= i && i < len(ras) && !ras[i].allowAnonymous ==> called(R,i) && !rasOK(i)
+//@ ensures [C02:authenticator] result0 && result2 == nil ==> route.Authenticator != nil
+//@ assigns route.Authenticator, \opaque
+//@ loop 0 invariant forall i int :: called(R,i) ==> 0 <= i && i <= rangeindex && !ras[i].allowAnonymous && arg(R,i,1) == req && arg(R,i,2) == route && !rasOK(i)
+//@ loop 0 invariant forall i int :: 0 <= i && i <= rangeindex && !ras[i].allowAnonymous ==> called(R,i)
+//@ loop 0 invariant allowsAnon ==> exists i int @try(rangeindex) :: 0 <= i && i <= rangeindex && ras[i].allowAnonymous
+//@ loop 0 invariant !allowsAnon ==> forall i int :: 0 <= i && i <= rangeindex ==> !ras[i].allowAnonymous
+//@ loop 0 invariant allowsAnon ==> anonAuth.allowAnonymous
+//@ loop 0 invariant lastError == nil ==> forall i int :: called(R,i) ==> ret(R,i,2) == nil
+//@ loop 0 invariant lastError != nil ==> exists i int @try(rangeindex) :: called(R,i) && lastError == ret(R,i,2) && (forall j int :: called(R,j) && j > i ==> ret(R,j,2) == nil)
+
+//@ func (RouteAuthenticators).AllowsAnonymous
+//@ ensures result <==> exists i int @try(rangeindex+1) :: 0 <= i && i < len(ras) && ras[i].allowAnonymous
+//@ assigns \nothing
+//@ loop 0 invariant forall i int :: 0 <= i && i <= rangeindex ==> !ras[i].allowAnonymous
+
+//@ func (*MatchedRoute).HasAuth
+//@ requires m != nil
+//@ ensures result <==> len(m.Authenticators) > 0
+//@ assigns \nothing
+
+//@ func (*MatchedRoute).NeedsAuth
+//@ requires m != nil
+//@ ensures result <==> (len(m.Authenticators) > 0 && m.Authenticator == nil)
+//@ assigns \nothing
+
+//@ func (*RouteAuthenticator).AllScopes
+//@ requires ra != nil
+//@ ensures result == ra.allScopes
+//@ assigns \nothing
+
+// (*Context).Authorize: authentication (OR of ANDs) then the authorizer; anything else is refused.
+//@ func (*Context).Authorize
+//@ watch CV = invoke (context.Context).Value
+//@ watch AU = call (RouteAuthenticators).Authenticate
+//@ watch AA = call (RouteAuthenticators).AllowsAnonymous
+//@ watch AZ = invoke (runtime.Authorizer).Authorize
+//@ watch UN = call github.com/go-openapi/errors.Unauthenticated
+//@ watch EN = call github.com/go-openapi/errors.New
+//@ watch AS = call (*RouteAuthenticator).AllScopes
+//@ requires c != nil && request != nil
+//@ requires route != nil ==> forall i int, k string :: 0 <= i && i < len(route.Authenticators) && in(k, route.Authenticators[i].Authenticator) ==> route.Authenticators[i].Authenticator[k] != nil
+//@ ensures [C02:noauth] route == nil || len(old(route.Authenticators)) == 0 ==> result0 == nil && result1 == nil && result2 == nil && calls(AU) == 0 && calls(AZ) == 0
+//@ ensures [C09:memo] route != nil && len(old(route.Authenticators)) > 0 ==> calls(CV) >= 1 && arg(CV,0,0) == boxof(ctxSecurityPrincipal)
+//@ ensures [C09:cached] calls(CV) >= 1 && ret(CV,0,0) != nil ==> result0 == ret(CV,0,0) && result1 == request && result2 == nil && calls(AU) == 0 && calls(AZ) == 0
+//@ ensures [C02:authenticate] calls(CV) >= 1 && ret(CV,0,0) == nil ==> calls(AU) == 1 && arg(AU,0,0) == old(route.Authenticators) && arg(AU,0,1) == request && arg(AU,0,2) == route
+//@ ensures [C02:notapplied] calls(AU) == 1 && (!ret(AU,0,0) || ret(AU,0,2) != nil) ==> result0 == nil && result1 == nil && result2 != nil && calls(AZ) == 0
+//@ ensures [C02:schemeerror] calls(AU) == 1 && ret(AU,0,2) != nil ==> result2 == ret(AU,0,2)
+//@ ensures [C02:401] calls(AU) == 1 && ret(AU,0,2) == nil && result2 != nil && calls(AZ) == 0 ==> calls(UN) == 1 && result2 == boxof(ret(UN,0,0))
+//@ ensures [C02:nilprincipal] calls(AU) == 1 && ret(AU,0,0) && ret(AU,0,2) == nil && ret(AU,0,1) == nil ==> calls(AA) == 1 && (!ret(AA,0,0) ==> result2 != nil && calls(AZ) == 0)
+//@ ensures [C02:authorizer] calls(AZ) <= 1 && (calls(AZ) == 1 ==> recv(AZ,0) == old(route.Authorizer) && arg(AZ,0,0) == request && arg(AZ,0,1) == ret(AU,0,1) && ret(AU,0,0) && ret(AU,0,2) == nil)
+//@ ensures [C02:denied] calls(AZ) == 1 && ret(AZ,0,0) != nil ==> result0 == nil && result1 == nil && result2 != nil
+//@ ensures [C02:admitted] result2 == nil && calls(AU) == 1 ==> result0 == ret(AU,0,1) && result1 != nil && ret(AU,0,0) && ret(AU,0,2) == nil && (old(route.Authorizer) != nil ==> calls(AZ) == 1 && ret(AZ,0,0) == nil) && calls(AS) == 1
+
+// the security middleware: next (binding + handler) runs only if the route needs no
+// (further) authentication or Authorize succeeded; otherwise the error is rendered.
+//@ func newSecureAPI$1
+//@ watch RI = call (*Context).RouteInfo
+//@ watch NA = call (*MatchedRoute).NeedsAuth
+//@ watch AZ = call (*Context).Authorize
+//@ watch NX = invoke (net/http.Handler).ServeHTTP
+//@ watch RS = call (*Context).Respond
+//@ assume after RI ret(RI,0,0) != nil
+//@ assume after RI forall i int, k string :: 0 <= i && i < len(ret(RI,0,0).Authenticators) && in(k, ret(RI,0,0).Authenticators[i].Authenticator) ==> ret(RI,0,0).Authenticators[i].Authenticator[k] != nil
+//@ requires rw != nil && r != nil && ctx != nil && next != nil
+//@ ensures [C02:one] calls(NX) + calls(RS) == 1 && calls(RI) == 1 && calls(NA) == 1 && arg(NA,0,0) == ret(RI,0,0)
+//@ ensures [C02:open] !ret(NA,0,0) ==> calls(AZ) == 0 && calls(NX) == 1
+//@ ensures [C02:gate] ret(NA,0,0) ==> calls(AZ) == 1 && arg(AZ,0,0) == ctx && arg(AZ,0,2) == ret(RI,0,0) && arg(AZ,0,1) == (ret(RI,0,1) != nil ? ret(RI,0,1) : r)
+//@ ensures [C02:refuse] calls(AZ) == 1 && ret(AZ,0,2) != nil ==> calls(NX) == 0 && calls(RS) == 1 && arg(RS,0,5) == ret(AZ,0,2) && arg(RS,0,1) == rw && arg(RS,0,4) == ret(RI,0,0)
+//@ ensures [C02:admit] calls(AZ) == 1 && ret(AZ,0,2) == nil ==> calls(NX) == 1 && calls(RS) == 0 && arg(NX,0,1) == ret(AZ,0,1)
+//@ ensures [C02:next] calls(NX) == 1 ==> recv(NX,0) == next && arg(NX,0,0) == rw
